@@ -444,7 +444,7 @@ pub fn run(cfg: &Cfg) -> Report {
 
     // many multi-generator, long-word subgroup covers of the larger finite groups (coincidence cascades)
     let heavy = ["<1.1:1:1,1,1:3,5>", "<1.1:1 3:1,1,1,1:3,3,3>", "<1.1:1 3:1,1,1,1:4,3,3>", "<1.1:2:2,1 2,1 2:2,5 5>"];
-    let per = cfg.tier.pick(60, 250);
+    let per = cfg.tier.pick(60, 600);
     let ctx = crate::monitor::par_range(cfg, heavy.len() * 60, |ctx, k| {
         let b = msym_from_text(heavy[k % heavy.len()]).unwrap();
         let mut rng = Rng::stream(seed, 0x05_a000 + k as u64);
